@@ -321,8 +321,12 @@ def gen_scenario(rng):
             adv = rng.random()
             if adv < 0.35:
                 if is_native:
-                    ch = rng.randrange(7)
+                    ch = rng.randrange(8)
                     key = assets[oi]['native']
+                    if ch == 7:
+                        # the declared coin is attached exactly, plus an unrelated extra coin (not an asset of the pair: attaching the pair's other
+                        # asset would be a donation to the ask reserve in the same transaction, which the settlement predicates do not model)
+                        st['funds'] = {key: str(amt), 'ujunk': str(rng.choice([1, amt, 10 * amt + 7]))}
                     if ch == 5 and rng.random() < 0.5:
                         # offers an honestly attached native denom that is NOT an asset of the pair
                         st['named'] = {'native': 'ujunk'}
@@ -539,7 +543,10 @@ def gen_registry_scenario(rng):
         else:
             d = rng.choice(nat)
             sender = 'admin' if rng.random() < 0.85 else 'mallory'
-            steps.append(dict(op='add_native_decimals', sender=sender, denom=d, decimals=rng.choice([6, 8, 9, 10, 18])))
+            st_ = dict(op='add_native_decimals', sender=sender, denom=d, decimals=rng.choice([6, 8, 9, 10, 18]))
+            if rng.random() < 0.4:
+                st_['funds'] = {d: str(rng.choice([1, 5]))}     # the owner tops the factory up in the same call
+            steps.append(st_)
     # finish with lookups of every created pair in both orders
     for (a, b) in list(created):
         steps.append(dict(op='query_pair', assets=[a, b]))
@@ -607,6 +614,10 @@ def check_registry_scenario(case, out):
         elif op == 'add_native_decimals':
             if res['ok'] and st.get('sender', 'admin') != 'admin':
                 v.append(('C14', 'decimals registration by a non-owner succeeded', k))
+            if res['ok']:
+                for i_, (pp, pn) in enumerate(zip(prev.get('pairs', []), snap.get('pairs', []))):
+                    if pp.get('reserves') != pn.get('reserves'):
+                        v.append(('C07', 'decimals registration changed the balances of pair %d: %s -> %s' % (i_, pp.get('reserves'), pn.get('reserves')), k))
             if res['ok']:
                 truth_n[st['denom']] = st['decimals']
         if not res['ok'] and snap != prev:
@@ -914,7 +925,7 @@ def search_special(run_cases, pid, rng, budget):
         if hit:
             return hit
     gens = []
-    if pid in ('C16', 'C17', 'C14'):
+    if pid in ('C16', 'C17', 'C14', 'C07'):
         gens.append((gen_registry_scenario, check_registry_scenario, False))
     if pid == 'C19':
         gens.append((gen_pages_scenario, check_pages_scenario, False))
